@@ -47,10 +47,7 @@ Theorem C01_reducers_are_numpy :
     kern OAll l = np_all l /\ kern OAny l = np_any l /\
     (l <> [] -> kern OMax l = np_max l /\ kern OMin l = np_min l) /\
     (dropnan l <> [] -> kern ONanmax l = np_nanmax l /\ kern ONanmin l = np_nanmin l).
-Proof.
-  intros l. repeat split; auto using kern_sum_np, kern_prod_np, kern_nansum_np, kern_nanprod_np,
-    kern_all_np, kern_any_np, kern_max_np, kern_min_np, kern_nanmax_np, kern_nanmin_np.
-Qed.
+Proof. exact reducers_are_numpy. Qed.
 
 Print Assumptions C01_flox_sort_reduceat_scatter.
 Print Assumptions C01_flox_kernels.
